@@ -10,7 +10,7 @@ import subprocess
 import sys
 import time
 
-ROOT = "/var/tmp/beff-mut"
+ROOT = os.environ.get("MUT_ROOT", "/var/tmp/beff-mut")
 GROUPS = {
     "client": ["C01", "C02", "C03", "C11", "C12", "C13", "C15", "C16", "C08"],
     "compiler": ["C01", "C03", "C04", "C08", "C09", "C10", "C13", "C15", "C11"],
@@ -84,7 +84,10 @@ def main():
             tool = next((l for l in r.stdout.splitlines() if l.startswith("TOOL-ERROR")), "")
             res[c] = {"rc": r.returncode, "violations": len(viol), "first": first[:300], "tool_error": tool[:300], "s": round(time.time() - t0)}
             print(f"{os.path.basename(d)} {c} rc={r.returncode} viol={len(viol)} {first[:140]} {tool[:140]}", flush=True)
-        json.dump({"checks": res, "at": time.strftime("%Y-%m-%d %H:%M:%S")}, open(os.path.join(d, "result.json"), "w"), indent=1)
+        rp = os.path.join(d, "result.json")
+        prev = json.load(open(rp))["checks"] if checks_opt and os.path.exists(rp) else {}
+        prev.update(res)
+        json.dump({"checks": prev, "at": time.strftime("%Y-%m-%d %H:%M:%S")}, open(rp, "w"), indent=1)
     sh(f"cd {ROOT}/repo && git checkout -q -- .")
 
 
